@@ -100,6 +100,11 @@ def build(P):
                                    raises={"ValueError": unknown}))
     import contracts.C18 as C18
     C18.label_tasks(P)      # HomogeneousMatrix(..., src, dst): the same string-or-member convention
+    # TransformDict.transform with the key's frames spelled as strings: the same entry / the same X -> X shortcut as with the members (C18's tasks, re-verified here)
+    n0_, mo_ = len(P.tasks), P.min_obligations
+    C18.build(P)
+    P.tasks[n0_:] = [t for t in P.tasks[n0_:] if t.name.startswith("TransformDict.transform[string")]
+    P.min_obligations = mo_
     # equality of keys built from either spelling: TransformKey.__eq__ compares the members
     def two_keys(it):
         a = it.ctx.new_cell("obj", {}, TK)
